@@ -281,7 +281,8 @@ def run(tier, seed):
     # modes the calls depend on (EOM on / off, measured, ...) have to be followed through the stored calls
     pplan = [(corner("unit8", name="virtual-g+l-already-parametrized", reusable=True, qubits=2,
                      prefix=[("declare", "g", "rydberg_global"), ("declare", "l", "raman_local"), ("declare_var", "x"), ("delay_v", "x", "g")]),
-              [op for op in ALPHA if op[0] not in ("ro",)], 2 if tier == "quick" else 3)]
+              [op for op in ALPHA if op[0] not in ("ro",)] + [("ro", "duration"), ("ro", "str"), ("ro", "phase_ref"), ("estimate", C52, "g"), ("estimate", C52, "g", "no-delay"),
+                                                             ("estimate", C52, "l", "wait-for-all"), ("ro", "sample")], 2 if tier == "quick" else 3)]
     cov = seqx.run_plan(res, plan, MONITORS, infos=infos)
     # states of a parametrized sequence differ only in their stored calls: keyed on the call log
     pres = Result("model_checking")
